@@ -85,7 +85,25 @@ func newC14Set(names []string) *c14Set {
 
 func (s *c14Set) middleware() *cors.Middleware {
 	if s.mw == nil {
-		mw, err := cors.NewMiddleware(cors.Config{Origins: []string{"https://example.com"}, RequestHeaders: s.names})
+		// header names are case-insensitive: the configuration spells each name as is, in upper case, or with exactly one
+		// letter in upper case (lesson of seeded change C14-l)
+		spelled := make([]string, len(s.names))
+		for i, n := range s.names {
+			h := hashString(n+"|"+strings.Join(s.names, ",")) >> 7 // the spelling of a name varies from set to set
+			switch h % 4 {
+			case 0:
+				spelled[i] = n
+			case 1:
+				spelled[i] = asciiUpper(n)
+			default:
+				if u := oneUpper(n, int(h>>2%64)); u != "" {
+					spelled[i] = u
+				} else {
+					spelled[i] = n
+				}
+			}
+		}
+		mw, err := cors.NewMiddleware(cors.Config{Origins: []string{"https://example.com"}, RequestHeaders: spelled})
 		if err != nil {
 			panic(fmt.Sprintf("C14: header set %q rejected: %v", s.names, err))
 		}
